@@ -25,6 +25,7 @@ func init() {
 			"(e) byte-mutants and truncations of (d) including header edits. Differential oracle: for each document whose first byte is 'c'/'C' (=> CTE) or 0x81 (=> CBE), every universal entry point " +
 			"(ce.UnmarshalFromCEDocument, ce.UnmarshalCE, ce.NewCEDecoder DecodeDocument/Decode with and without rules) must give the same error nil-ness and the same rendered value / event log as the " +
 			"format-specific entry point, and no panic may escape; a document with any other first byte (or none), which both format-specific entry points reject, must be rejected by every universal entry point too. Version oracle (format-specific Unmarshal and decoder+rules): version 1 gives exactly the result of version 0; every other version number is rejected. " +
+			"Directed documents and a quarter of the valid documents are compared again under configurations with MaxDocumentSizeBytes = length-3..length+1, MaxContainerDepth 0..2 and MaxObjectCount 1..3 (including documents of which a shorter prefix is well-formed too). " +
 			"Encoder oracle: every CBE document produced by the encoder or marshaler starts with 81 00, every CTE document with 'c0' followed by whitespace. " +
 			"Documents with any other first byte (or none) are don't-care for the differential (only escaped panics are reported). Non-trivial = detected format and length >= 4; distinct = distinct documents.",
 		Assumptions: []string{"detection rule taken from the property text: 'c'/'C' => CTE, 0x81 => CBE, decided on the first byte only (leading whitespace is not detected as CTE)",
@@ -211,6 +212,36 @@ func c27Differential(c *fw.Ctx, cfg *configuration.Configuration, doc []byte, ho
 	}
 }
 
+// c27LimitDocs: documents of which a shorter prefix is a well-formed document too.
+var c27LimitDocs = [][]byte{[]byte("c0\n1234"), []byte("C1\n1234"), []byte("c0 [1 2 3]\n \n"), {0x81, 0x00, 0x01, 0x01}, {0x81, 0x00, 0x6a, 0x39, 0x30}, []byte("c0 12.5000")}
+
+// c27UnderLimits repeats the differential under configurations whose document size limit lies just below, at and above
+// the document's length, and with small depth / object limits: the universal entry points must pass the caller's
+// configuration on and reject exactly what the format-specific entry point rejects.
+func c27UnderLimits(c *fw.Ctx, doc []byte) {
+	if c27Detect(doc) == "" {
+		return
+	}
+	for k := -3; k <= 1; k++ {
+		if len(doc)+k < 0 {
+			continue
+		}
+		cfg := c27Config()
+		cfg.Rules.MaxDocumentSizeBytes = uint64(len(doc) + k)
+		c27Differential(c, cfg, doc, false)
+		c.Inc("differential_under_docsize_limit")
+	}
+	for _, n := range []uint64{0, 1, 2} {
+		cfg := c27Config()
+		cfg.Rules.MaxContainerDepth = n
+		c27Differential(c, cfg, doc, false)
+		cfg = c27Config()
+		cfg.Rules.MaxObjectCount = n + 1
+		c27Differential(c, cfg, doc, false)
+		c.Inc("differential_under_small_limits")
+	}
+}
+
 // c27VersionOracle: mk(0) and mk(1) must behave identically; mk(n>=2) must be rejected.
 func c27VersionOracle(c *fw.Ctx, cfg *configuration.Configuration, format string, d0, d1, dN []byte, n string, assertReject bool) {
 	for _, k := range []c27Entry{{Kind: "unmarshal", Format: format}, {Kind: "decode", Format: format}, {Kind: "unmarshal", Format: format, Reader: true}} {
@@ -315,6 +346,10 @@ func runC27(c *fw.Ctx, idx int) {
 		switch {
 		case idx < len(directed):
 			c27Differential(c, cfg, directed[idx], false)
+			c27UnderLimits(c, directed[idx])
+			if idx < len(c27LimitDocs) {
+				c27UnderLimits(c, c27LimitDocs[idx])
+			}
 		case idx == len(directed):
 			// version probes (also the probe of the CTE version-1 finding)
 			c27VersionOracle(c, cfg, "cte", []byte("c0 1"), []byte("c1 1"), []byte("c2 1"), "2", true)
@@ -429,6 +464,12 @@ func runC27(c *fw.Ctx, idx int) {
 		c27CheckEncoderHeader(c, format, doc, "encoder")
 		c.Inc("encoder_headers_checked." + format)
 		c27Differential(c, cfg, doc, false)
+		if r.Intn(4) == 0 {
+			if format == "cte" && r.Intn(2) == 0 {
+				doc = append(append([]byte{}, doc...), '\n')
+			}
+			c27UnderLimits(c, doc)
+		}
 		if format == "cte" && r.Intn(2) == 0 {
 			up := append([]byte{'C'}, doc[1:]...)
 			c27Differential(c, cfg, up, false)
